@@ -181,7 +181,11 @@ func (ev *Env) evalQuant(x *EQuant) Value {
 			}
 		}
 	}
-	body := ev.evalBool(x.Body)
+	fc.u.quant++
+	body := func() string {
+		defer func() { fc.u.quant-- }()
+		return ev.evalBool(x.Body)
+	}()
 	for _, v := range x.Vars {
 		delete(ev.vars, v.Name)
 	}
@@ -706,7 +710,12 @@ func (ev *Env) evalSel(x *ESel) Value {
 	base := ev.eval(x.X)
 	// ghost field?
 	if g := fc.eng.ghostField(ev.pkg, x.Name, base); g != nil {
-		ref := ev.asScalar(base).T
+		var ref string
+		if sv, isSl := base.(SliceV); isSl {
+			ref = sv.Base
+		} else {
+			ref = ev.asScalar(base).T
+		}
 		_, srt := ev.resolveSpecType(g.Type)
 		key := "X!" + g.Owner + "." + g.Name
 		t := tSel(fc.compTerm(ev.cur(), key, "(Array Int "+srt+")"), ref)
@@ -1018,6 +1027,43 @@ func (ev *Env) evalCall(x *ECall) Value {
 			return v
 		}
 		return Scalar{"0", "Int", nil}
+	case "inv":
+		// inv(x): all declared invariant clauses of x's struct type hold for the object x points to
+		v := ev.asScalar(arg(0))
+		if v.Typ == nil {
+			ev.fail("inv(): untyped argument")
+		}
+		pt, ok := v.Typ.Underlying().(*types.Pointer)
+		if !ok {
+			ev.fail("inv(): argument is not a pointer")
+		}
+		var cs []string
+		for _, inv := range fc.eng.invariants {
+			t := fc.eng.lookupType(inv.Pkg, inv.Type)
+			if t == nil || !types.Identical(t, pt.Elem()) {
+				continue
+			}
+			for _, cl := range inv.Clauses {
+				ie := fc.invEnv(ev.cur(), inv, pt.Elem(), v.T)
+				ie.old = ev.old
+				cs = append(cs, ie.evalBool(cl.E))
+			}
+		}
+		if len(cs) == 0 {
+			ev.fail("inv(): no invariant declared for %s", pt.Elem())
+		}
+		return Scalar{tAnd(cs...), "Bool", types.Typ[types.Bool]}
+	case "unbox":
+		// unbox(x, T): the value of dynamic type T held by interface value x
+		v := ev.asScalar(arg(0))
+		tn := x.Args[1].String()
+		t, _ := ev.resolveSpecType(tn)
+		if t == nil {
+			ev.fail("unbox: unknown type %s", tn)
+		}
+		srt := fc.sortOf(t)
+		_, un := fc.boxFn(t, srt)
+		return Scalar{"(" + un + " " + v.T + ")", srt, t}
 	case "tagis":
 		// tagis(x, T): dynamic type of interface value x is T
 		v := ev.asScalar(arg(0))
@@ -1164,6 +1210,8 @@ func (fc *FuncCtx) declareSpec(sf *SpecFunc) string {
 		ev.vars[p.Name] = Scalar{pn, srt, t}
 	}
 	_, rs := ev.resolveSpecType(sf.Result)
+	fc.u.quant++
+	defer func() { fc.u.quant-- }()
 	if sf.Uninterp {
 		fc.u.emit("(declare-fun " + name + " (" + strings.Join(psorts, " ") + ") " + rs + ")")
 		fc.u.Assumptions["uninterpreted spec function "+sf.Name] = true
